@@ -210,7 +210,7 @@ def check_node_valid(w0: int, w1: int, ign: int, opt: int) -> bool:
     """
     pre: -2 <= w0 <= 3 and -2 <= w1 <= 3
     pre: -1 <= ign <= 1
-    pre: 0 <= opt <= 7
+    pre: 0 <= opt <= 8
     post: _
     """
     # node-weighted input of the same graph: the converse direction (documented options on valid input are accepted) and
@@ -218,11 +218,11 @@ def check_node_valid(w0: int, w1: int, ign: int, opt: int) -> bool:
     invalid = False
     for j in range(2):
         c = w0 if j == 0 else w1
-        if c == -1 and ign != j:
+        if c == -1 and ign != j and not (opt == 8 and j == 0):      # opt 8: error scale 0 on the first symbolic node = ignored (documented)
             invalid = True
         if c == -2 or c == 0:
             pass
-    r0, r1, ri, ro = _conc(w0, -2, 3), _conc(w1, -2, 3), _conc(ign, -1, 1), _conc(opt, 0, 7)
+    r0, r1, ri, ro = _conc(w0, -2, 3), _conc(w1, -2, 3), _conc(ign, -1, 1), _conc(opt, 0, 8)
     with NoTracing():
         G = nx.DiGraph()
         G.add_edges_from([(u, v) for (u, v, _f) in BASE])
@@ -250,6 +250,8 @@ def check_node_valid(w0: int, w1: int, ign: int, opt: int) -> bool:
             kw["elements_to_ignore_percentile"] = 30
         elif ro == 4:
             kw[CKEY] = [[inner[0]]]
+        elif ro == 8:
+            kw["error_scaling"] = dict([(sym[0], 0)])
         elif ro == 5:
             kw[CKEY] = [[]]                                   # malformed: empty constraint
         elif ro == 6 and HAS_STARTS:
@@ -437,9 +439,11 @@ def _diag(task, call):
     if fn == "check_node_valid":
         a = dict(zip(["w0", "w1", "ign", "opt"], pos)); a.update(kw)
         neg = (a["w0"] == -1 and a["ign"] != 0) or (a["w1"] == -1 and a["ign"] != 1)
+        if a["opt"] == 8:
+            return "node-mode:valid-input-rejected:error-scale-0-node" if not ((a["w1"] == -1 and a["ign"] != 1)) else "node-mode:negative-node-weight->ok"
         if a["opt"] >= 5 and not neg:
             return "node-mode:malformed-input-not-rejected-with-ValueError:" + ["empty-constraint", "edge-as-additional-start", "unknown-additional-end"][a["opt"] - 5]
-        return ("node-mode:negative-node-weight->ok" if neg else "node-mode:valid-input-rejected:" + ["plain", "starts-ends", "error_scaling", "percentile", "constraint", "empty-constraint->not-ValueError", "edge-as-start->not-ValueError", "unknown-end->not-ValueError"][a["opt"]])
+        return ("node-mode:negative-node-weight->ok" if neg else "node-mode:valid-input-rejected:" + ["plain", "starts-ends", "error_scaling", "percentile", "constraint", "empty-constraint->not-ValueError", "edge-as-start->not-ValueError", "unknown-end->not-ValueError", "error-scale-0-on-negative-node"][a["opt"]])
     names = ["k", "covn", "w0", "w1", "ign", "corr", "wtc"]
     a = dict(zip(names, pos))
     a.update(kw)
